@@ -63,7 +63,8 @@ CHECKS = {
             "Proof: for every address and every network of any prefix length, whether or not its stated address is the first address of the range (an iPAddress name constraint is address||mask): a network containing a reserved address "
             "intersects, super-nets of intersecting networks intersect, two spellings of one range get one answer (what failed for ::ffff mask /112 before fix 608ffca), a single-address network answers like the address test, "
             "and intersects only fires on networks that contain a reserved address - given the obligations table_wf and table_closed over the network table regenerated from the build (table_closed is what failed for 127/8 before the fix); "
-            "every special-purpose block of the statement is reserved in full and the listed public addresses are not (data obligations).",
+            "every special-purpose block of the statement is reserved in full and the listed public addresses are not (data obligations). The two reverse-DNS lints are modelled on top (Kernels.Arpa: zone, label count, assembled address text, "
+            "net.ParseIP as oracle, reserved test by the same is_reserved) and compared with the code on directed names of both zones.",
             "DESIGN.md 5/C19", "Non-contiguous masks are outside the property's quantifier (a CIDR network has a prefix length)."),
     "C11": (True, "Coq theorems over the configuration-routing model (all documents, all configurable lints of the three kinds) + kernel-checked obligation on non-table sections + in-Coq correspondence on generated TOML",
             "Proof: a lint's run depends on the document only through the node stored under its own name (so none/empty/unrelated-only documents are indistinguishable and setting section A changes no lint other than A); "
